@@ -394,7 +394,7 @@ func runC04(c *Ctx) {
 				if staticCallee(ci.Common()) == un {
 					n++
 					arg := unwrap(ci.Common().Args[1])
-					c.Check(arg == ssa.Value(upd.Params[1]), "C04.handles", fnName(upd), "feed forwards the leaf handle to the match tree", P.Pos(ci.Pos()), "v argument: "+Expr(arg))
+					c.Check(arg == ssa.Value(param(upd, 1)), "C04.handles", fnName(upd), "feed forwards the leaf handle to the match tree", P.Pos(ci.Pos()), "v argument: "+Expr(arg))
 				}
 			}
 			c.Floor("C04.handles/update", n, 1)
